@@ -100,6 +100,9 @@ def varOf (s : Slot) : Option (Text × Root) :=
   | .var t r => some (t, r)
   | _ => none
 
+def textIf (ro : Role) (s : Slot) : Option Text :=
+  if s.role = ro then (varOf s).map Prod.fst else none
+
 def isStencil (s : Slot) : Bool :=
   match s.role with
   | .extent => true
@@ -120,9 +123,6 @@ def build (reserved : List Name) (inv : Invoke) : SymTab :=
   (regList inv).foldl reg { tags := [], used := reserved }
 
 /-! ## The two argument lists -/
-
-def textIf (ro : Role) (s : Slot) : Option Text :=
-  if s.role = ro then (varOf s).map Prod.fst else none
 
 /-- Texts of the variable arguments of one role, in the order written (all kernels). -/
 def textsOf (ro : Role) (inv : Invoke) : List Text := inv.flatten.filterMap (textIf ro)
@@ -158,7 +158,16 @@ def badSlot (s : Slot) : Bool :=
   | .direction, .lit _ => true
   | _, _ => false
 
-def refused (inv : Invoke) : Bool := inv.flatten.any badSlot
+/-- `Kern.__init__`: "Argument '…' is passed into kernel '…' code more than once from the algorithm
+layer" — a non-literal text occurring twice among the data arguments of ONE kernel call. -/
+def hasDup : List Text → Bool
+  | [] => false
+  | x :: xs => xs.contains x || hasDup xs
+
+def dataTexts (k : Kernel) : List Text := k.filterMap (textIf .data)
+
+def refused (inv : Invoke) : Bool :=
+  inv.any (fun k => hasDup (dataTexts k)) || inv.flatten.any badSlot
 
 structure Output where
   actuals : List Text
